@@ -60,6 +60,12 @@ Definition rq_num (bs : rq_pfx) : N := fold_left (fun acc (b : bool) => 2 * acc 
 (* a hop of an AS path as HopPath::iter() yields it: an AS number of an
    AS_SEQUENCE, or a whole other segment (AS_SET, confederation) *)
 Inductive rq_hop := HAsn (a : N) | HSeg.
+(* the AS_PATH attribute is a list of segments; to_hop_path() turns every AS number of an
+   AS_SEQUENCE into a hop of its own and any other segment into one hop, so the cut of a
+   sequence into segments is not visible in the hops *)
+Inductive rq_seg := SegSeq (l : list N) | SegOther.
+Definition rq_hops (segs : list rq_seg) : list rq_hop :=
+  flat_map (fun s => match s with SegSeq l => map HAsn l | SegOther => [HSeg] end) segs.
 
 (* The communities of a route live in up to four path attributes: COMMUNITIES (8),
    EXTENDED COMMUNITIES (16), LARGE_COMMUNITY (32) and the IPv6 address specific
